@@ -80,6 +80,19 @@ def encode_text(d):
     return d['text'].encode(enc, 'surrogatepass' if enc == 'utf-8' else 'replace')
 
 
+def _valid_item(obj):
+    """Structurally valid cache item: what an implementation can check without a checksum
+    (presence and basic types of the bookkeeping; the tree itself cannot be validated)."""
+    try:
+        obj.node
+        return (isinstance(obj, pc._NodeCacheItem)
+                and isinstance(obj.lines, list)
+                and isinstance(obj.change_time, (int, float))
+                and isinstance(obj.last_used, (int, float)))
+    except Exception:
+        return False
+
+
 def _safe_loads(data):
     """Harness-side validity check with the pure-Python unpickler (the C one prints SystemError
     noise and may touch freed memory on some garbage inputs)."""
@@ -498,11 +511,13 @@ class World:
         n = self.fs.h_node(path)
         if n is None or n.is_dir:
             return
+        if ctx.injected:
+            return                           # an op that was hit by an injected error itself is judged leniently
         last = n.t_used
         self.count('cleanup.remove')
         if pclass == 'pkl':
             try:
-                if not isinstance(_safe_loads(n.data), pc._NodeCacheItem):
+                if not _valid_item(_safe_loads(n.data)):
                     return                   # a damaged entry is not "in use"
             except BaseException:
                 return
@@ -589,7 +604,7 @@ class World:
                 item = _safe_loads(n.data)
             except BaseException:
                 return True
-            return not isinstance(item, pc._NodeCacheItem)
+            return not _valid_item(item)
         except OSError:
             return False
 
@@ -1020,6 +1035,21 @@ class World:
                 o = others[op.get('b', 0) % len(others)][1].data
                 a = op.get('a', 0) % min(L, len(o))
                 new = o[:a] + data[a:]
+        elif how == 'attr':
+            # partial overwrite that hits the bookkeeping of the item: an attribute name or value
+            names = [b'change_time', b'last_used', b'lines', b'node']
+            name = names[op.get('a', 0) % len(names)]
+            k = data.rfind(name)
+            if k < 0:
+                new = data
+            else:
+                c = op.get('b', 0) % 3
+                if c == 0:
+                    new = data[:k] + bytes([data[k] ^ 0x01]) + data[k + 1:]          # key renamed
+                elif c == 1:
+                    new = data[:k + len(name)] + bytes(rng.randrange(256) for _ in range(3)) + data[k + len(name) + 3:]
+                else:
+                    new = data[:k - 2] + bytes(rng.randrange(256) for _ in range(2)) + data[k:]
         elif how == 'append':
             new = data + bytes(rng.randrange(256) for _ in range(1 + op.get('a', 0) % 40))
         else:
@@ -1032,9 +1062,13 @@ class World:
         if how != 'other-object':
             try:
                 obj = _safe_loads(new)
-                if isinstance(obj, pc._NodeCacheItem):
+                if _valid_item(obj):
+                    # still a structurally valid cache item: silent bit rot, which no implementation
+                    # without a checksum can notice; the property lists detectable damage only
                     self.count('corrupt.skipped_undetectable')
                     return
+                if isinstance(obj, pc._NodeCacheItem):
+                    self.count('corrupt.loadable_but_invalid_item')
             except BaseException:
                 pass
         n.data = new
